@@ -83,6 +83,14 @@ def random_scenario(rnd, n, wc, wf, ntx, length):
 
 
 # ---------------------------------------------------------------------------------------------- real chains
+class AccountingRefusal(Exception):
+    """the production DAO / reward accounting refused a block of a VALID history while the harness assembled it"""
+
+    def __init__(self, scenario, error):
+        Exception.__init__(self, "%s: %s" % (scenario, error))
+        self.scenario, self.error = scenario, error
+
+
 def build_chains(scenarios):
     res = {}
     # <= 20 chains per harness process: every node keeps ~75 MB of preallocated RocksDB WAL until the process ends
@@ -99,6 +107,9 @@ def build_chains(scenarios):
         for x in lines:
             if "scenario" in x:
                 if "error" in x:
+                    # the scenarios are valid histories: when it is the node's own DAO accounting that fails on one, that is data
+                    if "dao:" in x["error"] or "Dao" in x["error"]:
+                        raise AccountingRefusal(x["scenario"], x["error"])
                     raise V.ToolError("scenario %s could not be built on the real node: %s" % (x["scenario"], x["error"]))
                 res[x["scenario"]] = x
     return res
@@ -477,7 +488,13 @@ def run(tier):
     scenarios = pats + rands
     with open(os.path.join(V.workdir(PID), "scenarios.ndjson"), "w") as f:
         f.write("".join(json.dumps(s) + "\n" for s in scenarios))
-    real = build_chains(scenarios)
+    try:
+        real = build_chains(scenarios)
+    except AccountingRefusal as e:
+        sc = [x for x in scenarios if x["id"] == e.scenario]
+        c.violation("valid-history-refused/dao-accounting", "the DAO accounting of the real node fails on a block of the valid history %s: %s" % (
+            e.scenario, e.error), {"kind": "chain", "scenario": sc[0] if sc else e.scenario, "error": e.error})
+        return c.finish()
     real_classes = {}
     targets = judge_fees(c, scenarios, real, real_classes)
     for s in scenarios:
@@ -532,7 +549,11 @@ def replay(path, tier):
     if p["kind"] == "dao":
         judge_dao(c, [s], build_dao_chains([s]))
         return 1 if c.violations else 0
-    real = build_chains([s])
+    try:
+        real = build_chains([s])
+    except AccountingRefusal as e:
+        c.violation("valid-history-refused/dao-accounting", "the DAO accounting of the real node fails on a block of the valid history: %s" % e.error, p)
+        return 1
     judge_fees(c, [s], real)
     judge_amounts(c, [s], real)
     return 1 if c.violations else 0
